@@ -226,3 +226,20 @@ Example g_diff_sweep_fuel :
 Proof. vm_compute. reflexivity. Qed.
 
 Print Assumptions g_diff_sweep_eq.
+
+(* ------------------------------------------------------------------------------------------ *)
+(* headline theorems of the property files restated on the GENERATED definitions              *)
+From CG Require Import Proofs.Defs Proofs.Diff.
+
+Theorem src_difference_cover : forall fuel src sub_streams,
+  let subs := merge_by lt_fwd sub_streams in
+  (length subs < fuel)%nat ->
+  Forall wf_ivl src -> disjoint_sorted src -> Forall wf_ivl subs -> sorted_start subs ->
+  exists l, g_diff_sweep fuel src sub_streams = RDone l /\
+            forall t, covers l t = covers src t && negb (covers subs t).
+Proof.
+  intros fuel src ss subs Hf H1 H2 H3 H4. exists (diff_sweep src ss). split.
+  - apply g_diff_sweep_eq. exact Hf.
+  - apply dsweep_cover; assumption.
+Qed.
+Print Assumptions src_difference_cover.
